@@ -916,10 +916,10 @@ pub fn main(args: &[String]) -> i32 {
         _ => "prune requests issued through the real client request inside simulation runs give (record index, live sets); the real journal thread prunes a copy of the journal (tmp file, rename, reopen), records are appended, and restore(pruned) is compared with restore(unpruned); non-trivial = at least one prune executed",
     };
     let minima = match prop.as_str() {
-        "C10" => json!({"cuts_compared": 3000, "pending_tasks_checked": 10000, "pending_tasks_started_before": 200, "pending_tasks_with_deps": 200, "torn_tails": 100, "crash_runs.restarts": 10, "journals_with_queue_records": 40}),
-        "C11" => json!({"cuts_compared": 3000, "cuts_highest_job_gone": 20, "crash_runs.restarts": 10}),
+        "C10" => json!({"cuts_compared": 1000, "pending_tasks_checked": 3000, "pending_tasks_started_before": 60, "pending_tasks_with_deps": 60, "torn_tails": 40, "crash_runs.restarts": 5, "journals_with_queue_records": 10}),
+        "C11" => json!({"cuts_compared": 1000, "cuts_highest_job_gone": 8, "crash_runs.restarts": 5}),
         "C03" | "C06" | "C07" => json!({}),
-        _ => json!({"prunes": 20, "prunes_with_pending_tasks": 10, "prunes_that_removed_records": 10, "journals_with_queue_records": 40}),
+        _ => json!({"prunes": 15, "prunes_with_pending_tasks": 8, "prunes_that_removed_records": 8, "journals_with_queue_records": 10}),
     };
     let summary = json!({
         "prop": prop, "shard": shard, "seed": seed, "runs": runs, "steps": steps,
